@@ -79,23 +79,29 @@ let fast_lows (cols : int list array) : int array =
 
 let ncase = ref 0
 let zvals vals = List.map z_of_int vals
-let conv_pairs rows cols zv rev (lows : nat option list) =
+(* the same composition as [barcode] of C14_Model.v (cells, filtration order, boundary columns, pairs), with the
+   cells and the order computed once *)
+let complex rows cols zv rev =
+  let cells = rect_cells rows cols zv rev in
+  let order = filtration_order (sq_lt zv rev) cells in
+  (cells, order, boundary_columns cells order)
+let conv_pairs cells order (lows : nat option list) =
   List.map (fun ((k, b), d) -> (int_of_nat k, int_of_nat b, (match d with None -> -1 | Some x -> int_of_nat x)))
-    (rect_pairs_of rows cols zv rev lows)
+    (pairs_of cells order lows)
 
-let certified_pairs rows cols zv rev =
-  let colsz = rect_columns rows cols zv rev in
+let certified_of (cells, order, colsz) =
   let n = nat_of_int (List.length colsz) in
   match certified_lows (z_of_int 2) (dense_of_sparse n colsz) with
   | None -> None
-  | Some l -> Some (conv_pairs rows cols zv rev l)
+  | Some l -> Some (conv_pairs cells order l)
+let certified_pairs rows cols zv rev = certified_of (complex rows cols zv rev)
 
-let fast_pairs rows cols zv rev =
-  let colsz = rect_columns rows cols zv rev in
+let fast_of (cells, order, colsz) =
   let arr = Array.of_list (List.map (fun c -> List.map (fun (r, _) -> int_of_nat r) c) colsz) in
   let lows = fast_lows arr in
   let l = Array.to_list (Array.map (fun x -> if x < 0 then None else Some (nat_of_int x)) lows) in
-  conv_pairs rows cols zv rev l
+  conv_pairs cells order l
+let fast_pairs rows cols zv rev = fast_of (complex rows cols zv rev)
 
 let answer_of_pairs mode (vals : int array) prs =
   if mode = "i" then
@@ -111,13 +117,14 @@ let rect_answer ~fast mode rows cols (vals : int list) =
     let r = nat_of_int rows and c = nat_of_int cols and zv = zvals vals in
     let va = Array.of_list vals in
     let certify = (not fast) || (!ncase mod certify_every = 0 && (2 * rows + 1) * (2 * cols + 1) <= 130) in
-    let main = if fast then Some (fast_pairs r c zv false) else certified_pairs r c zv false in
+    let cx = complex r c zv false in
+    let main = if fast then Some (fast_of cx) else certified_of cx in
     match main with
     | None -> "CERTIFICATE-FAILED"
     | Some prs ->
       let extra = ref "" in
       if fast && certify then begin
-        match certified_pairs r c zv false with
+        match certified_of cx with
         | Some prs' when List.sort compare prs' = List.sort compare prs -> ()
         | _ -> incr cross_fail; extra := " FAST-REDUCTION-DISAGREES-WITH-CERTIFIED"
       end;
